@@ -87,6 +87,7 @@ def grid(ctx, rng):
         # a long path to the command: the kernel copies the file name as well as argv[0]
         point("400k x 1 byte, command reached through a 3300-byte path, 8MiB", 400000, "1", 1, 8 * MIB, cmd_path_len=3300),
         point("60k x 2 bytes, command reached through a 3900-byte path, 512KiB stack", 60000, "2", 1, 512 * KIB, cmd_path_len=3900),
+        point("400k x 1 byte, bare command name found through a 3600-byte PATH entry, 8MiB", 400000, "1", 1, 8 * MIB, cmd_path_len=-3600),
         # environments made of many tiny variables (pointer cost dominates)
         point("400k x 7 bytes, 4000 tiny environment variables, 8MiB", 400000, "7", 1, 8 * MIB, env_tiny=4000),
         point("100k x 2 bytes, 20000 tiny environment variables, 8MiB", 100000, "2", 1, 8 * MIB, env_tiny=20000),
@@ -161,7 +162,17 @@ def run_point(job):
             soft, hard = resource.getrlimit(resource.RLIMIT_STACK)
             resource.setrlimit(resource.RLIMIT_STACK, (resource.RLIM_INFINITY if stack < 0 else stack, hard))
         cmd = common.REC
-        if p.get("cmd_path_len"):
+        if p.get("cmd_path_len", 0) < 0:
+            # a bare command name, resolved by the PATH search through a very long directory name
+            d = wd
+            while len(d) + 240 < -p["cmd_path_len"]:
+                d = os.path.join(d, "d" * 230)
+                os.mkdir(d)
+            os.symlink(common.REC, os.path.join(d, "verif-rec-cmd"))
+            env["PATH"] = d + ":" + env["PATH"]
+            cmd = "verif-rec-cmd"
+            st.inc("points_with_long_command_path")
+        elif p.get("cmd_path_len"):
             d = wd
             while len(d) + 240 < p["cmd_path_len"]:
                 d = os.path.join(d, "d" * 230)
